@@ -34,6 +34,10 @@ def strategy():
     @st.composite
     def hist(draw):
         cbs = {k: draw(beh) for k in ("onChallenge", "onJoin", "onLeave", "onDisconnect")}
+        if draw(st.integers(0, 3)) == 0:
+            # an onChallenge() whose Deferred / Future is pending and then *fails* (an external signer giving up) - while the connection is up, or only
+            # after the router's ABORT / the loss of the transport
+            cbs["onChallenge"] = "pending-fail"
         if draw(st.integers(0, 4)) == 0:
             cbs["onLeave"] = "override"       # user onLeave that only calls self.disconnect() and not the base implementation
         elif draw(st.integers(0, 5)) == 0:
@@ -85,9 +89,9 @@ class Run:
             b = cbs.get(name, "return")
             if b == "raise":
                 raise RuntimeError("user %s fails" % name)
-            if b == "pending":
+            if b in ("pending", "pending-fail"):
                 f = txaio.create_future()
-                run.pending_cb.append((f, default))
+                run.pending_cb.append((f, default, name, b == "pending-fail"))
                 return f
             return default
 
@@ -189,11 +193,15 @@ class Run:
         if self.phase != "pre" or self.w.t.closed:
             return
         self.do_resolve()
+        if self.phase != "pre" or self.w.t.closed:
+            return      # the pending onChallenge() of the previous round failed: this side has aborted, a conforming router sends nothing more
         err, n_ev, n_sent = self.feed(self.M.Challenge(method, {"challenge": "x"}))
         if err is not None:
             self.fail("challenge-raised|" + exc_key(err), repr(err))
         b = self.c["cbs"]["onChallenge"]
         sent = self.sent_names(n_sent)
+        if b == "pending-fail" and sent:
+            self.fail("challenge-answered-before-onChallenge-completed", repr(sent))
         if b == "return":
             if sent != ["Authenticate"]:
                 self.fail("challenge-not-answered", repr(sent))
@@ -207,6 +215,8 @@ class Run:
         if self.phase != "pre" or self.w.t.closed:
             return
         self.do_resolve()      # the router answers only after it received AUTHENTICATE
+        if self.phase != "pre" or self.w.t.closed:
+            return
         err, n_ev, n_sent = self.feed(self.M.Welcome(4242, self.w.router_roles, realm="realm1"))
         if err is not None:
             self.fail("welcome-raised|" + exc_key(err), repr(err))
@@ -233,7 +243,10 @@ class Run:
     def do_abort(self):
         if self.phase != "pre" or self.w.t.closed:
             return
-        self.do_resolve()
+        if self.c["cbs"].get("onChallenge") != "pending-fail":
+            self.do_resolve()      # (with a failing signer the router's ABORT may well arrive while onChallenge() is still pending: its failure then comes late)
+        if self.phase != "pre" or self.w.t.closed:
+            return
         err, n_ev, n_sent = self.feed(self.M.Abort("wamp.error.no_such_realm", "nope"))
         if err is not None:
             self.fail("abort-raised|" + exc_key(err), repr(err))
@@ -427,8 +440,28 @@ class Run:
     def do_resolve(self):
         import txaio
         pend, self.pending_cb = self.pending_cb, []
-        for f, val in pend:
-            self.w.call(lambda f=f, val=val: txaio.resolve(f, val))
+        for f, val, name, fails in pend:
+            if not fails:
+                self.w.call(lambda f=f, val=val: txaio.resolve(f, val))
+                continue
+            up = self.phase == "pre" and not self.transport_gone and not self.w.t.closed
+            n_sent = len(self.w.t.sent)
+
+            def go(f=f, name=name):
+                try:
+                    raise RuntimeError("user %s fails later" % name)
+                except RuntimeError:
+                    txaio.reject(f)
+            self.w.call(go)
+            self.w.settle()
+            if name == "onChallenge" and up:
+                # the failure arrives while the authentication is in progress: same as a raising onChallenge()
+                if self.sent_names(n_sent) != ["Abort"]:
+                    self.fail("failing-onChallenge-not-aborted", "late failure: %r" % (self.sent_names(n_sent),))
+                self.local_abort = "onChallenge"
+                self.phase = "aborted-locally"
+            elif name == "onChallenge" and len(self.w.t.sent) != n_sent:
+                self.fail("message-sent-for-a-dead-authentication", repr(self.sent_names(n_sent)))
         if getattr(self, "welcome_pending", False) and self.phase == "pre" and not self.w.t.closed:
             self.welcome_pending = False
             self.after_join()
